@@ -83,7 +83,10 @@ def decide_and_write(prop, pdef, tier, seed, results, wall, scratch):
         else:
             new_failures.append(f)
 
-    n_ob = len(obligations)
+    # obligations that fail exactly as a listed known finding are reported apart (known_finding_obligations) and not counted as
+    # obligations of the proof: `obligations` counts what this run was expected to discharge, `discharged` what it did discharge
+    known_names = {f['obligation'] for f, _ in known_hit} - {f['obligation'] for f in new_failures}
+    n_ob = len([n for n in obligations if n not in known_names])
     n_dis = len([n for n in obligations if n not in failed_names])
     n_b = len(bounded)
     n_bdis = len([n for n in bounded if n not in failed_names])
@@ -146,7 +149,8 @@ def decide_and_write(prop, pdef, tier, seed, results, wall, scratch):
         checker_cmd=' ; '.join(sorted(set(cmds))) or 'none',
         trusted_base=sorted(trusted),
         samples=samples,
-        obligation_names=sorted(obligations),
+        obligation_names=sorted(n for n in obligations if n not in known_names),
+        known_finding_obligations=sorted(known_names),
         backends=sorted({o['backend'] for o in list(obligations.values()) + list(bounded.values())}),
         solver_time_s=round(solver_s, 3),
         slow_functions={k: v for k, v in per_fn.items() if v > 20000},
@@ -178,5 +182,5 @@ def decide_and_write(prop, pdef, tier, seed, results, wall, scratch):
         json.dump(ev, fh, indent=1)
     for l in lines:
         print(l)
-    print(f'{prop}: tier={tier} obligations={n_ob} discharged={n_dis} bounded={n_b}/{n_bdis} known={len(seen)} new_failures={len({f["obligation"] for f in new_failures})} rc={rc} wall={wall:.1f}s')
+    print(f'{prop}: tier={tier} obligations={n_ob} discharged={n_dis} failing-as-known-finding={len(known_names)} bounded={n_b}/{n_bdis} known={len(seen)} new_failures={len({f["obligation"] for f in new_failures})} rc={rc} wall={wall:.1f}s')
     return rc
